@@ -1,5 +1,5 @@
 """C14 — output is a deterministic, order-independent, local function of the bridge (spec/determ)."""
-import copy, json, os, random
+import copy, json, os, random, shutil
 import lib, observe
 
 TYPES = {
@@ -188,6 +188,39 @@ def same_named_leg(rep, wd, base_src, base_out):
     return 1
 
 
+def reused_directory_leg(rep, wd, base_src, base_out):
+    """The output is a function of the bridge, not of what an earlier run left in the output directory: generating a SHORTER revision
+    of the program into the directory that holds the longer one must give, for every file the tool writes, exactly what it writes
+    into an empty directory (files of types that no longer exist may stay behind: the tool does not delete)."""
+    longer = render(apply(copy.deepcopy(BASE), set(), {"a": "InsertUnrelated", "u": "Work", "m": 1, "i": 0})[0], set())
+    shorter_mods = copy.deepcopy(BASE)
+    shorter_mods[0][1] = [x for x in shorter_mods[0][1] if not (x[0] == "impl" and x[1] == "Alpha" and x[2] == 2)]    # Alpha loses its second impl block
+    shorter = render(shorter_mods, set())
+    ps, pl = os.path.join(wd, "rev_short.rs"), os.path.join(wd, "rev_long.rs")
+    open(ps, "w").write(shorter)
+    open(pl, "w").write(longer)
+    fresh = gen(wd, shorter, "revfresh")
+    exe = lib.build_tool()
+    n = 0
+    for b in lib.BACKENDS:
+        d = os.path.join(wd, "out_reused_" + b)
+        shutil.rmtree(d, ignore_errors=True)
+        r1 = lib.sh([exe] + lib.tool_args(b, pl, d), timeout=120)
+        r2 = lib.sh([exe] + lib.tool_args(b, ps, d), timeout=120)       # same directory, not emptied
+        if r1.returncode != 0 or r2.returncode != 0 or fresh[b]["rc"] != 0:
+            if (r2.returncode != 0) != (fresh[b]["rc"] != 0):
+                rep.violation({"action": "Regenerate", "backend": b, "what": "tool status depends on the output directory's history"}, {"stderr": r2.stderr[-400:]})
+            continue
+        got = observe.read_tree(d)
+        diff = sorted(f for f, v in fresh[b]["tree"].items() if got.get(f) != v)
+        n += 1
+        if diff:
+            rep.violation({"action": "Regenerate", "backend": b, "what": "output changed", "detail": "directory held an earlier, longer revision"},
+                          {"files": diff[:8], "example": {"file": diff[0], "fresh_bytes": len(fresh[b]["tree"][diff[0]]), "reused_bytes": len(got.get(diff[0], b""))}})
+        rep.nontriv("%s|Regenerate|into a used directory" % b)
+    return 1 if n else 0
+
+
 def run(rep, tier):
     wd = rep.wd
     rep.rule = ("histories = TLC-simulated edit sequences (rerun, swap adjacent items/modules, insert/remove an unrelated type, add/remove "
@@ -269,6 +302,7 @@ def run(rep, tier):
                 rep.nontriv("%s|%s|%s" % (b, a["a"], json.dumps({k: v for k, v in a.items() if k != "a"}, sort_keys=True)))
             mods, extras, cur_src, cur = mods2, extras2, src2, out2
     nsteps += same_named_leg(rep, wd, base_src, base_out)
+    nsteps += reused_directory_leg(rep, wd, base_src, base_out)
     rep.evaluations += nsteps * len(lib.BACKENDS)
     rep.traces += len(behs)
     rep.sample({"history": behs[0], "final_source": cur_src[:1500]})
